@@ -102,8 +102,25 @@ fn cut_len(len: usize, how: u8) -> usize {
         1 => len / 2,
         2 => len.saturating_sub(1),
         3 => 5.min(len.saturating_sub(1)),
-        _ => 1.min(len.saturating_sub(1)),
+        4 => 1.min(len.saturating_sub(1)),
+        // 6..=9 keep the length and damage one byte (see `damage`)
+        _ => len,
     }
+}
+
+/// Variants 6..=9: one byte of the reply is inverted (first, fifth, middle, last).
+fn damage(bytes: &mut [u8], how: u8) {
+    if bytes.is_empty() {
+        return;
+    }
+    let at = match how {
+        6 => 0,
+        7 => 4.min(bytes.len() - 1),
+        8 => bytes.len() / 2,
+        9 => bytes.len() - 1,
+        _ => return,
+    };
+    bytes[at] ^= 0xFF;
 }
 
 /// Families whose reply to a request is one datagram / one stream and that have no challenge step: cutting the valid reply short gives
@@ -131,7 +148,7 @@ pub struct Faulty {
     pub step: u8,
     pub plan: Vec<Fault>,
     pub log: Rc<RefCell<FaultLog>>,
-    /// 0: a malformed outcome is the fixed hand-written reply; 1..=4: it is the valid reply cut short (half, last byte off, five bytes, one byte); 5: an empty datagram / an empty stream
+    /// 0: a malformed outcome is the fixed hand-written reply; 1..=4: it is the valid reply cut short (half, last byte off, five bytes, one byte); 5: an empty datagram / an empty stream; 6..=9: the valid reply with one byte inverted (first, fifth, middle, last)
     pub mangle: u8,
     cur: Fault,
     cur_step: u8,
@@ -195,7 +212,9 @@ impl Responder for Faulty {
             full.extend_from_slice(&new);
             out.conn.stream.truncate(base);
             let k = cut_len(full.len(), self.mangle);
-            out.conn.stream.extend_from_slice(&full[.. k]);
+            let mut part = full[.. k].to_vec();
+            damage(&mut part, self.mangle);
+            out.conn.stream.extend_from_slice(&part);
             if !full.is_empty() {
                 out.close();
             }
@@ -241,7 +260,9 @@ impl Responder for Faulty {
                         // stream protocols: the reply may only be written after a later send of this attempt
                         let full: Vec<u8> = out.conn.stream.split_off(n_st);
                         let k = cut(full.len(), self.mangle);
-                        out.conn.stream.extend_from_slice(&full[.. k]);
+                        let mut part = full[.. k].to_vec();
+                        damage(&mut part, self.mangle);
+                        out.conn.stream.extend_from_slice(&part);
                         if !full.is_empty() {
                             out.close();
                         }
@@ -255,9 +276,11 @@ impl Responder for Faulty {
                         let d = out.conn.inbox.back_mut().unwrap();
                         let k = cut(d.len(), self.mangle);
                         d.truncate(k);
+                        damage(d, self.mangle);
                     } else if stream_only && out.conn.stream.len() - n_st > 1 {
                         let k = cut(out.conn.stream.len() - n_st, self.mangle);
                         out.conn.stream.truncate(n_st + k);
+                        damage(&mut out.conn.stream[n_st ..], self.mangle);
                         out.close();
                     } else {
                         // not a single reply: the fixed malformed reply instead
